@@ -196,8 +196,54 @@ def figures_case(n_workers):
     return probs
 
 
+def two_reports_case(verbosity_name):
+    '''one Rst object formats two reports one after the other (the first holds a failing comparison, the second none); both are written AFTERWARDS: each written
+    report holds its own sections, and a failure mark exactly for its own failing result'''
+    import numpy as np
+    from collections import OrderedDict
+    from valjean.eponine.dataset import Dataset
+    from valjean.gavroche.test import TestEqual
+    from valjean.javert.representation import Representation, TableRepresenter
+    from valjean.javert.rst import Rst
+    from valjean.javert.test_report import TestReport
+    from valjean.javert.verbosity import Verbosity
+    bins = OrderedDict([('e', np.array([1., 2., 3., 4.]))])
+    ref = Dataset(np.array([10., 20., 30., 40.]), np.full(4, 0.5), bins=bins, name='reference')
+    bad = TestEqual(ref, Dataset(np.array([10., 21., 30., 44.]), np.full(4, 0.5), bins=bins, name='other'), name='bad', description='fails').evaluate()
+    good = TestEqual(ref, Dataset(ref.value.copy(), ref.error.copy(), bins=bins, name='same'), name='good', description='succeeds').evaluate()
+    first = TestReport(title='Nightly', text='nightly comparisons', content=[TestReport(title='only in the first', content=[bad])])
+    second = TestReport(title='Reference', text='reference run', content=[TestReport(title='only in the second', content=[good])])
+    base = tempfile.mkdtemp(prefix='c20t_', dir='/var/tmp')
+    probs = []
+    try:
+        rst = Rst(Representation(TableRepresenter(), verbosity=getattr(Verbosity, verbosity_name)))
+        f1 = rst.format_report(report=first, author='me', version='1')
+        f2 = rst.format_report(report=second, author='me', version='1')
+        texts = {}
+        for lab, f in (('first', f1), ('second', f2)):
+            target = os.path.join(base, lab)
+            f.write(target)
+            texts[lab] = '\n'.join(open(os.path.join(dp, fn)).read() for dp, _, fns in os.walk(target) for fn in sorted(fns) if fn.endswith('.rst'))
+        if 'only in the first' not in texts['first'] or 'only in the second' in texts['first']:
+            probs.append('the report formatted first, written after the second one was formatted, does not hold its own sections')
+        if ':hl:`' not in texts['first']:
+            probs.append('the report formatted first holds a failing comparison and is written without any failure mark')
+        if 'only in the second' not in texts['second'] or ':hl:`' in texts['second']:
+            probs.append('the report formatted second is not written as formatted')
+    except Exception as e:      # noqa
+        probs.append(f'raised {e!r}')
+    finally:
+        shutil.rmtree(base, ignore_errors=True)
+    return probs
+
+
 def sweep(tier, seed, known=()):
     fails, n = [], 0
+    for vb in ('SUMMARY', 'DEFAULT', 'FULL_DETAILS'):
+        n += 1
+        probs = two_reports_case(vb)
+        if probs:
+            fails.append({'input': {'two_reports_one_formatter': True, 'verbosity': vb}, 'observed': probs[:3], 'expected': 'each written report is the report that was formatted'})
     for nw in (None, 2):
         n += 1
         probs = figures_case(nw)
@@ -210,7 +256,7 @@ def sweep(tier, seed, known=()):
             fails.append({'input': {'report': _show(shape)}, 'observed': probs[:3], 'expected': 'C20 oracle'})
     return {'name': 'written-report-native', 'evaluations': n, 'distinct': n, 'failures': fails, 'exhaustive': True,
             'bound': f'report trees of depth <= 3 over titles {TITLES if tier != "quick" else "a, b, index, conf, empty, ., a/b, v1.2 x"} (one and two children, nested, repeated, '
-                     'empty sections), one result per marked section; files inspected after FormattedRst.write; one report with plots written sequentially and with 2 worker processes',
+                     'empty sections), one result per marked section; files inspected after FormattedRst.write; one report with plots written sequentially and with 2 worker processes; two reports formatted by one Rst object and written afterwards (3 verbosities)',
             'samples': [_show(('Root', 0, [('a', 1, []), ('index', 1, [])]))]}
 
 
@@ -223,6 +269,9 @@ def _unshow(d):
 
 
 def replay(inp):
+    if inp.get('two_reports_one_formatter'):
+        probs = two_reports_case(inp.get('verbosity', 'DEFAULT'))
+        return {'reproduced': bool(probs), 'observed': probs}
     if inp.get('figures'):
         probs = figures_case(inp.get('n_workers'))
         return {'reproduced': bool(probs), 'observed': probs}
